@@ -3,7 +3,7 @@
 import json,sys,os,shutil,re
 ID=sys.argv[1]; CK=sys.argv[2] if len(sys.argv)>2 else ID; SUF=sys.argv[3] if len(sys.argv)>3 else 'sub1'
 out='/tmp/seed/%s.out'%ID; ev=open('/tmp/seed/%s.eval'%ID).read()
-dst='/verif/seeded/%s-%s'%(ID,SUF); os.makedirs(dst,exist_ok=True)
+dst='/verif/seeded/%s-%s'%(CK,SUF); os.makedirs(dst,exist_ok=True)
 for f in ['patch.diff','zz_seed_demo_test.go','demo_path.txt']:
     shutil.copy(os.path.join(out,f),dst)
 try: m=json.load(open(os.path.join(out,'meta.json')))
